@@ -117,6 +117,31 @@ def derive_D(F, base, rng, n, quals=None, files=DRIVER_FILES, thr=None, which=("
     return out
 
 
+def derive_DD(F, base, rng, n, quals=None, files=DRIVER_FILES, delay=None):
+    """Two delays in two different threads of the driver (user/manager/feeder/...): races that need two windows."""
+    pts = points_of(F, role="driver", files=files, quals=quals)
+    by_thr = {}
+    for pt in pts:
+        by_thr.setdefault(pt["thr"], []).append(pt)
+    if len(by_thr) < 2:
+        return []
+    out = []
+    thrs = sorted(by_thr)
+    for _ in range(n):
+        t1, t2 = rng.sample(thrs, 2)
+        rules = []
+        fns = []
+        for t in (t1, t2):
+            cand = stratified_sample(by_thr[t], 6, rng)
+            pt = rng.choice(cand)
+            hs = hits_for(pt, rng, which=(rng.choice(("first", "second", "last", "random")),)) or [1]
+            d = delay if delay is not None else base_delay(base, rng)
+            rules.append(rule(pt, ["sleep", d], hit=hs[0]))
+            fns.append(pt["qual"])
+        out.append(({"rules": rules}, {"mode": "DD", "fn": "+".join(fns), "thr": "%s+%s" % (t1, t2)}))
+    return out
+
+
 def derive_K(F, base, rng, n, quals=None, files=WORKER_FILES, actions=KILL_ACTIONS, which=("first", "last"), n_workers=1, enumerate_all=False):
     out = []
     workers = sorted({p["proc"] for p in points_of(F, role="worker") if p["proc"]})
